@@ -125,6 +125,37 @@ def mutate_cells(rng, cells, names):
     return out
 
 
+def alias_cells(rng, cells, rtype, cx, desc):
+    """the alias stream (FX7, finding C04/webhook-body-shadowed): a second header that is re-keyed to a field the row
+    already has a cell for (short/long spelling: message_text <-> the main argument of the row type — webhook.body in a
+    call_webhook row —, _nodeId <-> node_uuid, ...), with a blank cell (60 %) or a text, before or after the
+    original.  None when the row has no aliasable cell."""
+    f2h = desc[4]
+    main = cx["sw_table"].get(rtype)
+    pairs = []
+    for k, _ in cells:
+        if k == cx["sw_header"] and main:
+            pairs.append((k, main))
+        elif main and k == main:
+            pairs.append((k, cx["sw_header"]))
+        for long, short in f2h.items():
+            if short != cx["sw_header"] and long != short:
+                if k == short:
+                    pairs.append((k, long))
+                elif k == long:
+                    pairs.append((k, short))
+    pairs = [(k, a) for (k, a) in pairs if a not in dict(cells)]
+    if not pairs:
+        return None
+    k, alias = rng.choice(pairs)
+    i = [h for h, _ in cells].index(k)
+    val = "" if rng.random() < 0.6 else rowgen.rand_text(rng, [k, alias], 6)
+    out = list(cells)
+    pos = rng.randint(0, i) if rng.random() < 0.4 else rng.randint(i + 1, len(cells))
+    out.insert(pos, (alias, val))
+    return out
+
+
 def all_names(t):
     out = []
     if t[0] == "model":
@@ -555,6 +586,7 @@ def run_flow(ctx, stats, nontrivial, samples, RowParser, CellParser, RowDataShee
     n_files = (400 if thorough else 40) * ctx.scale
     fstats = {"rows": 0, "in_domain": 0, "by_type": {}, "strip_uuids": 0, "file_csv": 0, "file_xlsx": 0, "multi_row_sheets": 0}
     batch = []
+    alias_batch = []
     flow_dom_batch = []
     good_rows = []
     for i in range(n_flow):
@@ -599,6 +631,14 @@ def run_flow(ctx, stats, nontrivial, samples, RowParser, CellParser, RowDataShee
                 stats["malformed_cells"] += 1
                 stats["malformed_parse_ok"] += badr[0] == "ok"
             batch.append((desc, val, T, X, un, back, bad, badr, reqs))
+            if un[0] == "ok" and rng.random() < 0.5:
+                al = alias_cells(rng, un[1], val["type"], cx, desc)
+                if al is not None:
+                    alr = impl_parse(parser, al)
+                    fstats["alias_rows"] = fstats.get("alias_rows", 0) + 1
+                    fstats["alias_blank_after"] = fstats.get("alias_blank_after", 0) + any(
+                        v2 == "" and h2 not in dict(un[1]) and i2 > 0 for i2, (h2, v2) in enumerate(al))
+                    alias_batch.append((al, alr))
             if len(batch) >= 300:
                 flush_generic(ctx, m, batch, stats)
                 batch = []
@@ -606,6 +646,18 @@ def run_flow(ctx, stats, nontrivial, samples, RowParser, CellParser, RowDataShee
             samples.append(dict(flow_row_cells=un[1]))
     if m and batch:
         flush_generic(ctx, m, batch, stats)
+    if m and alias_batch:
+        # correspondence of parse_row on rows in which two headers denote one field (the model's rekey_put)
+        outs = model_ask(m, [f"(107 4 {rowlib.e_cells(al)})" for al, _ in alias_batch])
+        for (al, alr), o in zip(alias_batch, outs):
+            mp = norm_res(o, rowlib.d_value)
+            case = dict(model="FlowRowModel", cells=al, stream="alias")
+            if mp[0] == "bad":
+                ctx.disagree("parse_row (alias row): model could not decode the request", case, mp, alr)
+            elif (mp[0] == "ok") != (alr[0] == "ok"):
+                ctx.disagree("parse_row (alias row) ok/error", case, mp, alr)
+            elif mp[0] == "ok" and not _deep_eq(mp[1], alr[1]):
+                ctx.disagree("parse_row (alias row) instance", case, mp[1], alr[1])
     if m and flow_dom_batch:
         flush_domain(ctx, m, flow_dom_batch, fstats, key="flow-roundtrip", what="flow_dom")
 
